@@ -4,10 +4,9 @@ TRUST = ("Trusted: go/parser, go/types, x/tools v0.29.0; the idiom tables frozen
          "Only the named structural clauses are decided, for all paths/sites; value-level behaviour is not.")
 
 claim("C01",
-      "AST unification of generated twins against their sources + custom AST/type dataflow lint (stride-unit inference)",
-      "Structural necessary conditions of C01 decided for every function and path of the BLAS packages: every generated (untested) S/C routine is the node-for-node image of its tested D/Z source (TWIN); no operand is indexed, sliced or forwarded with another operand's leading dimension / increment / Stride (STRIDE). A violation of this rule changes which elements are addressed whenever two operands have different strides, which the test suite almost never exercises. Arithmetic correctness of the loop nests is NOT decided.",
-      TRUST, "DESIGN.md §3.2, §4 C01")
-
+      'AST unification of generated twins; SSA parameter write-set summaries (points-to + VTA call graph); stride-unit dataflow lint; assembly access-window/unit lint',
+      "Structural necessary conditions of C01 decided for every function and path of the BLAS packages: every generated (untested) S/C routine is the node-for-node image of its tested D/Z source; the slice operands each of the 142 routines may write equal the BLAS standard's outputs (read-only operands unchanged, kernels analysed through their noasm bodies); no operand is indexed, sliced, length-checked or forwarded with another operand's ld/inc, strided indices are anchored at the negative-increment start offset, matrix rows are addressed through ld; loop counters and parameters are used; in the assembly kernels per-iteration access windows and byte/element units are consistent. Arithmetic correctness of the loop nests, rounding and the assembly's arithmetic are NOT decided.",
+      TRUST, 'DESIGN.md §3.2, §4 C01')
 claim("C02",
       "custom CFG path analysis (workspace-query purity, validate-before-write) + stride-unit dataflow lint",
       "Structural necessary conditions of C02 decided for all paths of the anchored lapack/gonum routines in both workspace modes: a query (lwork == -1) stores only to work[0] and calls only queries/scalar helpers; arguments are validated before any operand write; every slice use is preceded by a branch on its length; no operand is addressed with a foreign leading dimension. Backward stability and factor structure are NOT decided.",
@@ -21,19 +20,17 @@ claim("C04",
       "Structural necessary condition of C04 decided for every function of mat: each Data[...] access and each (Data, Stride) pair given to blas64/lapack64 uses the stride of the same matrix, so a strided view is addressed with its own stride on every path. Agreement of dispatch arms with the generic definition is NOT decided.",
       TRUST, "DESIGN.md §3.2, §4 C04")
 claim("C07",
-      "custom CFG path analysis of argument-check prologues (order, must-pass-through length checks, completeness) + stride-unit lint",
-      "The mostly structural property: for all 281 exported BLAS/LAPACK entry points and every prologue path, no argument-check panic is reachable after an operand write, every slice use is dominated on all paths by a branch on its length, every int/flag/slice parameter is validated (exceptions frozen with reasons), and no operand is addressed with another's stride. In-bounds behaviour of assembly given correct lengths and exactness of each extent expression are NOT decided here.",
-      TRUST, "DESIGN.md §3.3, §4 C07")
-
+      'custom CFG path analysis of argument-check prologues; stride-unit lint; generated/bounds twin comparison; assembly access-window lint',
+      "The mostly structural property: for all 281 exported BLAS/LAPACK entry points and every prologue path, no argument-check panic is reachable after an operand write, every slice use is preceded on all paths by a branch on its length, every int/flag/slice parameter is validated (exceptions frozen with reasons), optional operands are used only under their flag, a workspace query touches only work[0]; the generated routines' prologues mirror the tested ones; no operand is addressed with another's stride; in the 56 assembly kernels every loop's memory accesses stay inside the elements the iteration advances over. Exactness of each extent polynomial and the assembly's loop guards are NOT decided.",
+      TRUST, 'DESIGN.md §3.3, §4 C07')
 claim("C08",
-      "configuration sweep through the type checker + exported-API diff; element-wise AST twin comparison; stride-unit lint",
-      "The 'in every build configuration' clause decided statically: every tag/arch configuration of the packages with build-tag twins type-checks and exports one API; the r3 safe/unsafe 3x3 builders agree element by element; Go kernels address each operand with its own increment. Equality of assembly or noasm loops with the scalar definitions is NOT decided.",
-      TRUST, "DESIGN.md §3.1, §3.11, §4 C08")
-
+      'configuration sweep through the type checker + exported-API diff; element-wise AST twin comparison; stride-unit and parameter-use lints; assembly access-window/unit lint',
+      "The 'in every build configuration' clause decided statically: every tag/arch configuration of the packages with build-tag twins type-checks and exports one API; the r3 safe/unsafe 3x3 builders agree element by element; Go kernels address each operand with its own increment and read every parameter; assembly kernels keep per-iteration access windows and byte/element units consistent (found and repaired the amd64 Ger kernels' negative-increment handling, which made the default build disagree with noasm). Equality of assembly or noasm loops with the scalar definitions is NOT decided.",
+      TRUST, 'DESIGN.md §3.1, §3.11, §4 C08')
 claim("C05",
-      "custom CFG must-dataflow (overlap-guard-before-kernel-write) over mat methods",
-      "The aliasing mechanism of C05 decided for all paths and dispatch arms of the receiver-taking mat methods: every kernel write of the destination that also reads an operand's raw storage is preceded on every path by an overlap guard, identity edge, isolated workspace or guarded delegation; isolatedWorkspace results are restored. Three pre-existing unguarded arms (Dense.Mul with SymDense/TriDense operand, SymRankK's x) are reproduced and recorded as known findings. The overlap predicate's arithmetic and operand immutability are NOT decided.",
-      TRUST, "DESIGN.md §3.5, §4 C05")
+      'SSA parameter write-set summaries (points-to with escape summaries, VTA call graph); custom CFG must-dataflow (overlap-guard-before-kernel-write)',
+      "Both mechanisms of C05 decided statically: no exported mat function or method may write through a matrix-typed parameter other than the receiver or dst (187 parameters, interprocedural); every kernel write of the destination that also reads an operand's raw storage is preceded on every path by an overlap guard, identity edge, isolated workspace or guarded delegation; the overlap predicate's element size matches the element type in the default and safe builds. Three pre-existing unguarded arms are reproduced and recorded as known findings. The overlap predicate's arithmetic is NOT decided.",
+      TRUST, 'DESIGN.md §3.5, §4 C05')
 claim("C06",
       "custom CFG def-use and path analysis of status results (ok/error/Condition discipline)",
       "The 'reported through ok/error rather than a silently wrong answer' clause decided for every call site and return in mat, lapack64 and lapack/gonum: no LAPACK/mat status is dropped, no success is returned on the path where a callee failed, every solver can return Condition and does so exactly under cond > ConditionTolerance. Reconstruction identities and update formulas are NOT decided.",
